@@ -41,20 +41,20 @@ PROPS = {
                 rand_quick=8000, rand_thorough=150000, extra_clauses=["times_off_grid"]),
     "C10": dict(ops=["union", "difference", "intersection", "mergeLabels"], kinds=["I", "P"],
                 quick=dict(N=4, K=2), thorough=dict(N=5, K=3, OneSpan=True),
-                plans_quick=[("dy", "ascii"), ("dec", "uni")],
-                plans_thorough=[("dy", "ascii"), ("dec", "uni"), ("c7", "quote")],
+                plans_quick=[("dy", "ascii"), ("dec", "uni"), ("far", "ascii", 4)],
+                plans_thorough=[("dy", "ascii"), ("dec", "uni"), ("c7", "quote"), ("far", "ascii", 2)],
                 rand_quick=8000, rand_thorough=150000, extra_clauses=["times_off_grid"]),
     "C11": dict(ops=["insertEntry", "deleteEntry"], kinds=["I", "P"],
                 quick=dict(N=4, K=2, Depth=1), thorough=dict(N=5, K=3, Depth=1),
                 deep=dict(N=4, K=2, Depth=2),            # histories of two calls, design level only (no emission)
-                plans_quick=[("dy", "ascii"), ("dec", "uni")],
-                plans_thorough=[("dy", "ascii"), ("dec", "uni"), ("c7", "quote")],
+                plans_quick=[("dy", "ascii"), ("dec", "uni"), ("far", "ascii", 4)],
+                plans_thorough=[("dy", "ascii"), ("dec", "uni"), ("c7", "quote"), ("far", "ascii", 2)],
                 rand_quick=8000, rand_thorough=150000, extra_clauses=["times_off_grid"],
                 histories_quick=400, histories_thorough=8000),
     "C14": dict(ops=["dejitter", "morph"], kinds=["I", "P"],
                 quick=dict(N=4, K=2), thorough=dict(N=5, K=2),
-                plans_quick=[("dy", "ascii"), ("dec", "uni")],
-                plans_thorough=[("dy", "ascii"), ("dec", "uni"), ("c7", "quote")],
+                plans_quick=[("dy", "ascii"), ("dec", "uni"), ("far", "ascii", 4)],
+                plans_thorough=[("dy", "ascii"), ("dec", "uni"), ("c7", "quote"), ("far", "ascii", 2)],
                 rand_quick=8000, rand_thorough=150000, extra_clauses=["times_off_grid"]),
     "C05": dict(ops=ALL_UNARY + ALL_BINARY + ["construct"], kinds=["I", "P"],
                 quick=dict(N=3, K=2, Depth=1), thorough=dict(N=4, K=2, Depth=1),
@@ -489,8 +489,10 @@ def check(prop, tier):
             res.judge(events, verdicts, findings, rel)
 
         for pi, plan in enumerate(plans):
+            stride = plan[2] if len(plan) > 2 else 1          # (embedding, label pool[, every n-th vector only])
+            plan = plan[:2]
             for b0 in range(0, nv, BATCH):
-                chunk = vectors[b0:b0 + BATCH]
+                chunk = vectors[b0:b0 + BATCH][::stride]
                 events = T.replay(chunk, [plan], 0)
                 if pi == 0:
                     ndrift += sum(1 for v, ev in zip(chunk, events) if not ev.get("broken") and drift(v, ev))
@@ -520,7 +522,7 @@ def check(prop, tier):
             mops, eops, prefixes = TG_PARTS[prop]
             rel2 = lambda c: any(c.startswith(p_) for p_ in prefixes) or c in ("times_off_grid", "UNKNOWN_OP")
             checks_tg.run_part(prop, tier, res, findings, work, mops, eops, rel2,
-                               plans=[("dy", "ascii"), ("dec", "uni")])
+                               plans=[("dy", "ascii"), ("dec", "uni")] + ([("far", "ascii")] if prop == "C14" else []))
         # the repository's own tests and examples as a trace source (order-only clauses under rank abstraction)
         if prop in ("C05", "C13"):
             from . import recorded
